@@ -340,6 +340,8 @@ class RecordRun:
                "atTamper": self.at_tamper, "desync": self.desync, "state": state if state in ("records", "hung up", "lost") else str(state),
                "pendingReads": sum(1 for r in self.reads if r is None), "consumerDone": self.consumer_done,
                "consumerBytes": self.consumer_bytes, "sentBytes": sum(len(p) for p in self.payloads),
+               "expectedBytes": self.expected_total or 0,
+               "gotBytes": sum(len(self.payloads[i - 1]) for i in self.got if isinstance(i, int)),
                "clean": self.at_tamper < 0 and [f for f, _ in self.wire] == self.honest[self.consumed:], "inflight": len(self.wire),
                "internal": self.internal, "direction": self.direction, "chunking": self.chunking,
                "consumer": self.consumer_mode}
